@@ -711,13 +711,184 @@ fn lincheck() {
     }
 }
 
+/// END-TO-END correspondence cases for the composed transfer model (EncTransferFSExec.v).
+/// The global context is built from KNOWN multiples of one base point, the prover's random scalars are
+/// recovered by replaying a clone of the deterministic RNG through the same generator calls, in the order of
+/// gen_enc_trans / gen_sec_to_pub_trans (encryption randomness, ComEq (alpha, R) per chunk, common, then per
+/// bulletproof: (s_L, s_R) x 64, (a~, s~) per value, (t1~, t2~) per value).  Each produced transfer is printed
+/// as a "view" (what a verifier sees + the real verdict of verify_enc_trans); `npert` perturbed copies
+/// (+1 on a scalar / + base point on a group element at a flat position) follow.
+fn e2e(seed: u64, n: u64, npert: u64) {
+    use concordium_base::{bulletproofs::{range_proof::RangeProof, utils::Generators}, curve_arithmetic::{Curve, Field}, elgamal::Cipher,
+        encrypted_transfers::proofs::{gen_enc_trans_proof_info, verify_enc_trans, verify_sec_to_pub_trans, VerificationError},
+        pedersen_commitment::CommitmentKey, random_oracle::{RandomOracle, TranscriptProtocol}, sigma_protocols::common::SigmaProtocol};
+    type Fr = <G1 as Curve>::Scalar;
+    let mut r = Rng::new(seed);
+    let mut csprng = StdRng::seed_from_u64(seed ^ 0xe2e0);
+    let base = G1::one_point();
+    let dg = G1::generate_non_zero_scalar(&mut csprng);
+    let dh = G1::generate_non_zero_scalar(&mut csprng);
+    let dgs: Vec<Fr> = (0..64).map(|_| G1::generate_non_zero_scalar(&mut csprng)).collect();
+    let dhs: Vec<Fr> = (0..64).map(|_| G1::generate_non_zero_scalar(&mut csprng)).collect();
+    let g = base.mul_by_scalar(&dg);
+    let h = base.mul_by_scalar(&dh);
+    let context = GlobalContext::<G1> {
+        on_chain_commitment_key: CommitmentKey { g, h },
+        bulletproof_generators: Generators { G_H: dgs.iter().zip(dhs.iter()).map(|(a, b)| (base.mul_by_scalar(a), base.mul_by_scalar(b))).collect() },
+        genesis_string: String::from("verif-c12-e2e"),
+    };
+    let px = |p: &G1| hlib::hex(&ser(p));
+    let cx = |c: &Cipher<G1>| json!([px(&c.0), px(&c.1)]);
+    let scs = |v: &[Fr]| json!(v.iter().map(sc_hex).collect::<Vec<_>>());
+    println!("{}", json!({"k":"e2e-gens","dg":sc_hex(&dg),"dh":sc_hex(&dh),"dGs":scs(&dgs),"dHs":scs(&dhs),"gc":hlib::hex(&ser(&context)),
+        "g":px(&g),"h":px(&h),"zero":px(&G1::zero_point())}));
+    let code = |res: Result<Result<(), VerificationError>, String>| -> serde_json::Value { match res {
+        Ok(Ok(())) => json!(0), Ok(Err(VerificationError::SigmaProofError)) => json!(1),
+        Ok(Err(VerificationError::FirstBulletproofError(_))) => json!(2), Ok(Err(VerificationError::SecondBulletproofError(_))) => json!(3),
+        Err(_) => json!("PANIC") } };
+    let draw_sig = |k: usize, rp: &mut StdRng| -> Vec<(Fr, Fr)> { (0..k).map(|_| { let a = G1::generate_non_zero_scalar(rp); let rr = G1::generate_scalar(rp); (a, rr) }).collect() };
+    let sigj = |v: &[(Fr, Fr)]| json!(v.iter().map(|(a, b)| json!([sc_hex(a), sc_hex(b)])).collect::<Vec<_>>());
+    let draw_bp = |rp: &mut StdRng| -> serde_json::Value {
+        let (mut sl, mut sr) = (vec![], vec![]);
+        for _ in 0..64 { sl.push(G1::generate_scalar(rp)); sr.push(G1::generate_scalar(rp)); }
+        let (mut at, mut st, mut t1, mut t2) = (vec![], vec![], vec![], vec![]);
+        for _ in 0..2 { at.push(G1::generate_scalar(rp)); st.push(G1::generate_scalar(rp)); }
+        for _ in 0..2 { t1.push(G1::generate_scalar(rp)); t2.push(G1::generate_scalar(rp)); }
+        json!({"sL":scs(&sl),"sR":scs(&sr),"at":scs(&at),"st":scs(&st),"t1":scs(&t1),"t2":scs(&t2)}) };
+    // + base point / + 1 at flat position `i` of a serialised RangeProof (6 rounds)
+    let bump_bp = |p: &RangeProof<G1>, i: usize| -> Option<RangeProof<G1>> {
+        let mut b = ser(p);
+        let (off, is_pt) = if i < 4 { (48 * i, true) } else if i < 7 { (192 + 32 * (i - 4), false) } else if i < 19 { (292 + 48 * (i - 7), true) } else { (292 + 576 + 32 * (i - 19), false) };
+        if is_pt {
+            let q: G1 = concordium_base::common::from_bytes(&mut std::io::Cursor::new(&b[off..off + 48])).ok()?;
+            let q2 = q.plus_point(&base); b[off..off + 48].copy_from_slice(&ser(&q2));
+        } else {
+            let mut x: Fr = concordium_base::common::from_bytes(&mut std::io::Cursor::new(&b[off..off + 32])).ok()?;
+            x.add_assign(&Fr::one()); b[off..off + 32].copy_from_slice(&ser(&x));
+        }
+        concordium_base::common::from_bytes(&mut std::io::Cursor::new(&b)).ok() };
+    let bump_c = |e: &EncryptedAmount<G1>, i: usize| -> EncryptedAmount<G1> {
+        let mut e2 = e.clone();
+        let c = &mut e2.encryptions[i / 2];
+        if i % 2 == 0 { c.0 = c.0.plus_point(&base) } else { c.1 = c.1.plus_point(&base) }
+        e2 };
+    for i in 0..n {
+        let sk = SecretKey::generate(&g, &mut csprng);
+        let pk = PublicKey::from(&sk);
+        let sk2 = SecretKey::generate(&g, &mut csprng);
+        let pk2 = PublicKey::from(&sk2);
+        let mut dpkr = sk2.scalar; dpkr.mul_assign(&dg);
+        let (bal, amt) = match i % 6 {
+            0 => ((1u64 << 33) + 5, (1u64 << 32) + 7),
+            1 => { let b = r.u64_edge(); (b, b) }                       // whole balance
+            2 => (r.u64_edge(), 0),                                      // nothing
+            3 => (u64::MAX, r.u64_edge()),
+            4 => { let b = r.u64_edge() | (1 << 32); (b, (b & 0xffff_ffff) + 1) }   // borrow from the high chunk
+            _ => { let b = r.u64_edge() | 1; (b, r.below(b)) } };
+        let idx = r.below(1000);
+        let (enc_bal, brand) = et::encrypt_amount(&context, &pk, Amount::from_micro_ccd(bal), &mut csprng);
+        let input = AggregatedDecryptedAmount { agg_encrypted_amount: enc_bal.clone(), agg_amount: Amount::from_micro_ccd(bal), agg_index: EncryptedAmountAggIndex::from(idx) };
+        let s_joined = enc_bal.join();
+        let common_in = json!({"sk":sc_hex(&sk.scalar),"dpk_r":sc_hex(&dpkr),"pk_s":px(&pk.key),"pk_r":px(&pk2.key),"bal":bal.to_string(),"amt":amt.to_string(),"idx":idx,
+            "bal_ks":[sc_hex(brand.randomness[0].as_ref()), sc_hex(brand.randomness[1].as_ref())]});
+        // ---- encrypted transfer
+        let mut rp = csprng.clone();
+        let td = guarded(|| et::make_transfer_data(&context, &pk2, &sk, &input, Amount::from_micro_ccd(amt), &mut csprng));
+        let ka: Vec<Fr> = (0..2).map(|_| G1::generate_scalar(&mut rp)).collect();
+        let ks: Vec<Fr> = (0..2).map(|_| G1::generate_scalar(&mut rp)).collect();
+        let sig1 = draw_sig(2, &mut rp); let sig2 = draw_sig(2, &mut rp);
+        let common = G1::generate_non_zero_scalar(&mut rp);
+        let bpa = draw_bp(&mut rp); let bps = draw_bp(&mut rp);
+        let view_t = |td: &EncryptedAmountTransferData<G1>, bump: i64| -> serde_json::Value {
+            let a: &[Cipher<G1>; 2] = td.transfer_amount.as_ref();
+            let sp: &[Cipher<G1>; 2] = td.remaining_amount.as_ref();
+            let st = gen_enc_trans_proof_info(&pk, &pk2, &s_joined, a, sp, &h);
+            let c = st.get_challenge(&td.proof.accounting.challenge);
+            let cm = st.extract_commit_message(&c, &td.proof.accounting.response).map(|m| hlib::hex(&ser(&m)));
+            let mut ro = RandomOracle::domain("EncryptedTransfer");
+            ro.append_message(b"ctx", &&context); ro.append_message(b"receiver_pk", &&pk2); ro.append_message(b"sender_pk", &&pk);
+            let v = code(guarded(|| verify_enc_trans(&context, &mut ro, td, &pk, &pk2, &s_joined)));
+            json!({"bump":bump,"S":cx(&s_joined),"A":[cx(&a[0]),cx(&a[1])],"Sp":[cx(&sp[0]),cx(&sp[1])],"challenge":hlib::hex(td.proof.accounting.challenge.as_ref()),
+                "resp":hlib::hex(&ser(&td.proof.accounting.response)),"cm":cm,"bps":[hlib::hex(&ser(&td.proof.transfer_amount_correct_encryption)),hlib::hex(&ser(&td.proof.remaining_amount_correct_encryption))],
+                "verdict":v,"index":td.index.index,"verifies":et::verify_transfer_data(&context, &pk2, &pk, &enc_bal, td)}) };
+        match &td {
+            Err(_) => println!("{}", json!({"k":"e2e","kind":"transfer","in":common_in,"made":"PANIC"})),
+            Ok(None) => println!("{}", json!({"k":"e2e","kind":"transfer","in":common_in,"made":false})),
+            Ok(Some(td)) => {
+                let mut views = vec![view_t(td, -1)];
+                for _ in 0..npert {
+                    let pos = r.below(50) as usize;
+                    let mut t2 = td.clone();
+                    if pos < 4 { t2.remaining_amount = bump_c(&td.remaining_amount, pos) }
+                    else if pos < 8 { t2.transfer_amount = bump_c(&td.transfer_amount, pos - 4) }
+                    else if pos < 29 { match bump_bp(&td.proof.transfer_amount_correct_encryption, pos - 8) { Some(p) => t2.proof.transfer_amount_correct_encryption = p, None => continue } }
+                    else { match bump_bp(&td.proof.remaining_amount_correct_encryption, pos - 29) { Some(p) => t2.proof.remaining_amount_correct_encryption = p, None => continue } }
+                    views.push(view_t(&t2, pos as i64));
+                }
+                println!("{}", json!({"k":"e2e","kind":"transfer","in":common_in,"made":true,"kA":scs(&ka),"kS":scs(&ks),"sig1":sigj(&sig1),"sig2":sigj(&sig2),"common":sc_hex(&common),
+                    "bpa":bpa,"bps":bps,"views":views}));
+            }
+        }
+        // ---- secret to public transfer
+        let mut rp = csprng.clone();
+        let sd = guarded(|| et::make_sec_to_pub_transfer_data(&context, &sk, &input, Amount::from_micro_ccd(amt), &mut csprng));
+        let ks: Vec<Fr> = (0..2).map(|_| G1::generate_scalar(&mut rp)).collect();
+        let sig1 = draw_sig(1, &mut rp); let sig2 = draw_sig(2, &mut rp);
+        let common = G1::generate_non_zero_scalar(&mut rp);
+        let bps = draw_bp(&mut rp);
+        let view_s = |sd: &SecToPubAmountTransferData<G1>, bump: i64| -> serde_json::Value {
+            let sp: &[Cipher<G1>; 2] = sd.remaining_amount.as_ref();
+            let a = [Cipher(G1::zero_point(), h.mul_by_scalar(&G1::scalar_from_u64(sd.transfer_amount.micro_ccd())))];
+            let st = gen_enc_trans_proof_info(&pk, &pk, &s_joined, &a, sp, &h);
+            let c = st.get_challenge(&sd.proof.accounting.challenge);
+            let cm = st.extract_commit_message(&c, &sd.proof.accounting.response).map(|m| hlib::hex(&ser(&m)));
+            let mut ro = RandomOracle::domain("SecToPubTransfer");
+            ro.append_message(b"ctx", &&context); ro.append_message(b"pk", &&pk);
+            let v = code(guarded(|| verify_sec_to_pub_trans(&context, &mut ro, sd, &pk, &s_joined)));
+            json!({"bump":bump,"S":cx(&s_joined),"A":[cx(&a[0])],"Sp":[cx(&sp[0]),cx(&sp[1])],"challenge":hlib::hex(sd.proof.accounting.challenge.as_ref()),
+                "resp":hlib::hex(&ser(&sd.proof.accounting.response)),"cm":cm,"bps":[hlib::hex(&ser(&sd.proof.remaining_amount_correct_encryption))],
+                "verdict":v,"index":sd.index.index,"amount":sd.transfer_amount.micro_ccd().to_string(),
+                "verifies":et::verify_sec_to_pub_transfer_data(&context, &pk, &enc_bal, sd)}) };
+        match &sd {
+            Err(_) => println!("{}", json!({"k":"e2e","kind":"sec2pub","in":common_in,"made":"PANIC"})),
+            Ok(None) => println!("{}", json!({"k":"e2e","kind":"sec2pub","in":common_in,"made":false})),
+            Ok(Some(sd)) => {
+                let mut views = vec![view_s(sd, -1)];
+                for _ in 0..npert {
+                    let pos = r.below(26) as usize;
+                    let mut s2 = sd.clone();
+                    if pos < 4 { s2.remaining_amount = bump_c(&sd.remaining_amount, pos) }
+                    else if pos < 5 { if sd.transfer_amount.micro_ccd() == u64::MAX { continue } s2.transfer_amount = Amount::from_micro_ccd(sd.transfer_amount.micro_ccd() + 1) }
+                    else { match bump_bp(&sd.proof.remaining_amount_correct_encryption, pos - 5) { Some(p) => s2.proof.remaining_amount_correct_encryption = p, None => continue } }
+                    views.push(view_s(&s2, pos as i64));
+                }
+                println!("{}", json!({"k":"e2e","kind":"sec2pub","in":common_in,"made":true,"kS":scs(&ks),"sig1":sigj(&sig1),"sig2":sigj(&sig2),"common":sc_hex(&common),
+                    "bps":bps,"views":views}));
+            }
+        }
+    }
+}
+
+/// stdin: one 32-byte scalar (hex) per line; prints the compressed encoding of scalar * base point.
+fn expand() {
+    use concordium_base::curve_arithmetic::Curve;
+    use std::io::BufRead;
+    let base = G1::one_point();
+    for line in std::io::stdin().lock().lines() {
+        let line = line.unwrap();
+        let a: <G1 as Curve>::Scalar = concordium_base::common::from_bytes(&mut std::io::Cursor::new(hlib::unhex(line.trim()))).unwrap();
+        println!("{}", hlib::hex(&ser(&base.mul_by_scalar(&a))));
+    }
+}
+
 fn main() {
     quiet_panics();
     if std::env::args().nth(1).as_deref() == Some("lincheck") { lincheck(); return; }
+    if std::env::args().nth(1).as_deref() == Some("expand") { expand(); return; }
     let a: Vec<String> = std::env::args().collect();
     let seed: u64 = a[2].parse().unwrap();
     let n: u64 = a[3].parse().unwrap();
     match a[1].as_str() { "chunks" => chunks(seed, n), "oracle" => oracle(seed, n), "encgen" => encgen(seed, n), "attack" => attacks(seed),
-        "vchunks" => vchunks(seed, n), "bsgs" => bsgs(seed, n), "wiring" => wiring(seed), "bsgsser" => bsgsser(seed, n), "frames" => frames(seed),
+        "vchunks" => vchunks(seed, n), "bsgs" => bsgs(seed, n), "wiring" => wiring(seed), "bsgsser" => bsgsser(seed, n), "frames" => frames(seed), "e2e" => e2e(seed, n, a.get(4).and_then(|x| x.parse().ok()).unwrap_or(2)),
         "aggcarry" => aggcarry(seed, n, a.get(4).and_then(|x| x.parse().ok()).unwrap_or(18)), _ => panic!("mode") }
 }
